@@ -170,6 +170,17 @@ Theorem PlannerO_request_error_cases : forall iord defs rq e, iord_ok iord -> od
 Proof. exact collect_error_cases. Qed.
 Print Assumptions PlannerO_request_error_cases.
 
+(* FULL STATEMENT: the error class of a rejected request does not depend on the iteration order of input_features():
+     forall iord iord' defs rq e e', iord_ok iord -> iord_ok iord' -> collect iord defs rq = inr e -> collect iord' defs rq = inr e' -> e = e'.
+   REFUTED on the faithful model and on the real planner (known finding C04-nondet-option-error-reported; witness `two_errors` of
+   harness/planner_o.py: ValueError "Duplicate key ... conflicting values" under one hash seed, ValueError "Cannot update group: keys
+   already exist in context" under another).  Both are rejections. *)
+Theorem PlannerO_error_class_refuted :
+  odefs_ok exO_defs_two exO_rq1 /\ decl_ok exO_defs_two exO_rq1 /\ one_cfw exO_defs_two /\ iord_ok iord_id /\ iord_ok iord_rev /\
+  collect iord_id exO_defs_two exO_rq1 = inr 3 /\ collect iord_rev exO_defs_two exO_rq1 = inr 4.
+Proof. exact exO_two_errors_l. Qed.
+Print Assumptions PlannerO_error_class_refuted.
+
 (* ================= (d) well-formedness, acceptance, termination ================= *)
 Theorem PlannerO_plan_struct : forall ord g, ord_ok ord -> graph_ok (base g) ->
   wf_struct (plan_O ord g) = true /\ no_self_req (plan_O ord g) = true.
